@@ -376,6 +376,15 @@ pub fn run(cx: &mut Cx) -> String {
     if let Some(input) = cx.replay_input("source-replay") {
         cx.direct("source-replay", &input, |st| judge_source(&input, st));
     }
+    if !cx.is_replay() && cx.worker == 0 {
+        // fixed probe for the recorded known finding (the generators exclude its shape)
+        let src_text = crate::props::c02::LAZY_BINDING_SOURCE;
+        let input = json!({"source": src_text, "args": ["I 0", "Constr 0 []"], "expected_abort": true});
+        cx.direct("known-finding-probe:lazy-binding", &input, |st| match judge_source(&input, st) {
+            Err(f) if f.signature == "returns-where-source-aborts" => Err(Failure::new(crate::props::c02::KNOWN_LAZY_BINDING, f.detail)),
+            other => other,
+        });
+    }
     let cfg = AikCfg::default();
     // failures are shrunk on the syntax tree (judge_and_shrink), not on the choice sequence
     cx.shrink_iters = 0;
@@ -388,5 +397,14 @@ pub fn run(cx: &mut Cx) -> String {
         let case = gen_case(src, &cfg2, 8);
         judge_and_shrink(case, st, &|c, st| judge_case(c, Tracing::All(TraceLevel::Silent), st))
     });
+    // focus: refutable `expect` patterns (lists with discards and open tails, constructors,
+    // refined tuples) on values near the pattern's boundary
+    let cfg3 = AikCfg { expect_weight: 24, abort_weight: 1, trace_weight: 0, cast_weight: 2, max_helpers: 1, max_depth: 4, ..AikCfg::default() };
+    for (name, tracing) in [("expect-patterns-verbose", Tracing::All(TraceLevel::Verbose)), ("expect-patterns-silent", Tracing::All(TraceLevel::Silent))] {
+        cx.prop(name, tier.of(4_000, 100_000), 3000, |src, st| {
+            let case = gen_case(src, &cfg3, 6);
+            judge_and_shrink(case, st, &|c, st| judge_case(c, tracing, st))
+        });
+    }
     RULE.to_string()
 }
